@@ -37,7 +37,7 @@ def hotfix (fd : Fd) : Except Err Unit :=
 /-- `proc_subpath` of `utils/fd.rs` -/
 def procSubpath (fd : Fd) : Except Err Bytes :=
   if fd = AT_FDCWD then .ok b!"cwd"
-  else if fd > 0 then .ok (b!"fd/" ++ Path.decimal fd.toNat)
+  else if fd ≥ 0 then .ok (b!"fd/" ++ Path.decimal fd.toNat)
   else .error .invalidArgument
 
 def gettid : Prog Nat :=
@@ -101,8 +101,13 @@ def openatFollow (dir : Fd) (name : Bytes) (flags mode : Nat) : M Fd := do
 def openat (dir : Fd) (name : Bytes) (flags mode : Nat) : M Fd :=
   openatFollow dir name (flags ||| O_NOFOLLOW) mode
 
-/-- `openat2`: adds `O_CLOEXEC`, truncates the path at NUL (`to_c_string`) -/
-def openat2 (dir : Fd) (path : Bytes) (flags resolve : Nat) : M Fd := do
+/-- `openat2`: adds `O_CLOEXEC`; a path with an embedded NUL is refused before
+the call (the C string handed to the kernel would end there) -/
+def openat2 (dir : Fd) (path : Bytes) (flags resolve : Nat) : M Fd :=
+  if path.contains 0 then do
+    hotfix dir
+    failWith [dir] EINVAL
+  else do
   hotfix dir
   let flags := flags ||| O_CLOEXEC
   match ← M.call (.openat2 dir (Path.toCString path) flags 0 resolve OPEN_HOW_SIZE) with
@@ -200,10 +205,11 @@ def dup (fd : Fd) : M Fd := do
 def close (fd : Fd) : Prog Unit := .call (.close fd) fun _ => .ret ()
 
 /-- close every descriptor of the list once -/
-def closeAll (fds : List Fd) : Prog Unit :=
-  match fds.eraseDups with
+def closeList : List Fd → Prog Unit
   | [] => .ret ()
-  | l => l.foldr (fun fd acc => Prog.bind (close fd) fun _ => acc) (.ret ())
+  | fd :: rest => Prog.bind (close fd) fun _ => closeList rest
+
+def closeAll (fds : List Fd) : Prog Unit := closeList fds.eraseDups
 
 /-- drop one reference to `fd`: closes it unless another holder remains -/
 def release (fd : Fd) (stillHeld : List Fd) : Prog Unit :=
